@@ -21,5 +21,5 @@ Extraction "model.ml"
   gauss_run gauss_ok carry_run weight_index
   runner_trace_ok runner_times_ok runner_timed_ok rexec rinit
   c02_ok c03_ok c04_ok pexec pinit pterminal
-  c09_ok worker_actions
+  c09_ok stage_count_ok worker_actions
   c05_ok lexec linit wedged.
